@@ -148,7 +148,7 @@ def task_id(v):
 
 
 # ---------------------------------------------------------------- composition
-def compose(threads, state_vars, queue_cap=2, extra_order=(), timeout_ms=120000, free_locs=(), free_queue=False):
+def compose(threads, state_vars, queue_cap=2, extra_order=(), timeout_ms=300000, free_locs=(), free_queue=False):
     """threads: list of (ops, pc, result) - one local path per thread.  state_vars: {location: initial value (64 bit)}.
     Returns (solver, pos, allops, states) where states[loc][t] is the value of loc before time t."""
     s = z3.Solver(); s.set('timeout', timeout_ms)
